@@ -29,7 +29,7 @@ def main():
     lock = threading.Lock()
 
     def worker(k):
-        slot = "/tmp/ev_slot_%d" % k
+        slot = "/tmp/ev_slot_%d_%d" % (os.getpid(), k)
         subprocess.run("rsync -a --delete --exclude .git --exclude replays %s/ %s/" % (VERIF, slot), shell=True)
         while True:
             try:
